@@ -325,12 +325,44 @@ def suites(rng, tier):
              "distribution": {"cases": n, "note": "same scenario lines; adds the real accrue_interest applied in isolation, "
                                                    "so that the oracle knows the share value the loss was taken from"}},
             C14.killed_suite(rng, {"quick": 150, "thorough": 3000, "search": 1000}[tier]),
+            optin_suite(rng, {"quick": 120, "thorough": 2500, "search": 800}[tier]),
             {"suite": "oraclerisk", "name": "bankruptcy-assessment-with-bad-oracles",
              "lines": [C09.gen_risk_case(rng, "valid" if rng.random() < 0.5 else "malformed", {}) for _ in range({"quick": 500, "thorough": 8000, "search": 3000}[tier])],
              "distribution": {"note": "the Equity valuation behind check_account_bankrupt (real RiskEngine) on positions whose oracle is stale, foreign, wrongly owned or too uncertain: the assessment must FAIL, never count the collateral as worth nothing (C09's generator; only the Equity verdicts are judged here)"}},
             {"suite": "auth", "name": "who-may-settle-bad-debt",
              "lines": [l for l in C08.matrix() if C08.kvs(l)["ix"] == "lending_pool_handle_bankruptcy"],
              "distribution": {"note": "the authorization-matrix cells of lending_pool_handle_bankruptcy (every signer role, permissionless flag on / off, every single account substitution) through the real entry point"}}]
+
+
+def optin_suite(rng, n):
+    """'unless the bank opted into permissionless settlement': the opt-in is the bank flag that only
+    lending_pool_configure_bank writes. Sequences of real configure requests whose permissionless option is absent,
+    Some(false) or Some(true) (fresh banks, repeated opt-outs, opt-in / opt-out alternations, other options riding along):
+    after every accepted request the flag must be exactly what the requests said (C13's configuration oracle, key :4)"""
+    C13 = C14.C13
+    cfg2 = C13._std_compact(C13.fx(C13.Fraction(3, 2)), C13.fx(C13.Fraction(5, 4)))
+    cfg2["okey"], cfg2["tag"] = 1, 2
+    head = [C13.NOW] + C13.cfg_toks(cfg2) + [16]
+
+    def opt(perm, extra):
+        t = ["N"] * 16
+        if perm is not None:
+            t[13:14] = ["S", str(perm)]
+        if extra:
+            t[4:5] = ["S", str(rng.choice([0, 1, 10 ** 9, C13.U64]))]
+        return t
+    scripted = [(0,), (0, 0), (1,), (1, 0), (1, 1, 0, 0, 1), (None, 0), (0, None, 1), (1, None, 0, 0)]
+    lines = []
+    while len(lines) < n:
+        sq = scripted[len(lines)] if len(lines) < len(scripted) else tuple(rng.choice([None, 0, 0, 1]) for _ in range(rng.choice([1, 2, 3, 5])))
+        base = C13._std_compact(C13.ONE, C13.ONE) if len(lines) % 2 == 0 else C13.gen_cfg(rng, True, tag_std=True)
+        base["op"] = 1
+        steps = [C13.line("ADD", 0, C13.compact_toks(base))]
+        for pm in sq:
+            steps.append(C13.line("CFG", 0, opt(pm, rng.random() < 0.3)))
+        lines.append(C13.line(head, len(steps), *steps))
+    return {"suite": "cfgsim", "name": "permissionless-opt-in-follows-requests", "lines": lines,
+            "distribution": {"sequences": n, "scripted": len(scripted)}}
 
 
 def nontrivial(suite, case, impl):
@@ -385,7 +417,11 @@ def oracle(suite, case, impl):
         v = C09.oracle(suite, case, impl)
         return v if v and v["what"].startswith("Equity") else None
     if suite == "cfgsim":
-        return C14.oracle(suite, case, impl)      # 'permanently shut': no sequence of admin requests revives a killed bank
+        v = C14.oracle(suite, case, impl)      # 'permanently shut': no sequence of admin requests revives a killed bank
+        if v:
+            return v
+        v = C14.C13.oracle(suite, case, impl)  # the permissionless opt-in flag is exactly what configure_bank was asked
+        return v if v and v["key"] == "config-flag-not-as-requested:4" else None
     tr = O.Trace(case, impl)
     if not tr.ok:
         return None
